@@ -148,6 +148,7 @@ int main(int argc, char **argv){
         if (u.root){ vx::Result x = vx::run(std::vector<int>(), [&]{ return body(si); }, 120.0); S.execs++; S.points += (long) x.pts.size(); on_exec(x, std::vector<int>()); }
         else vx::explore(u.prefix, 1, sbound(si), [&]{ return body(si); }, on_exec, S, 120.0);
         for(auto &p : oc) vf::emit(vf::J().s("t","outcome").s("key", std::string(SC[si].name) + " | " + p.first).i("n", p.second));
+        if (ui % 41 == 0 && !oc.empty()) vf::emit(vf::J().s("t","sample").raw("case", vf::J().s("scenario", SC[si].name).raw("first_level_deviation", vf::jarr(u.prefix)).i("schedules_below", S.execs).s("an_outcome", oc.begin()->first).str()));
         vf::emit(vf::J().s("t","unit").s("unit", std::string(SC[si].name) + (u.root ? ":default" : ":" + vf::jarr(u.prefix))).i("states", S.points).i("transitions", S.points).i("execs", S.execs).i("evals", S.execs).i("distinct", (long long) oc.size()).i("violations", g_nviol).b("complete", !vf::past_deadline()));
     });
     vf::emit(vf::J().s("t","sample").raw("case", vf::J().s("scenario", SC[0].name).s("schedule", "default, then every choice vector with <= " + std::to_string(bound) + " non-default choices").str()));
